@@ -370,6 +370,8 @@ impl ConvexCell<WithoutFaces> {
         let mut num_v = self.vertices.len();
         let mut num_r = 0;
         while i < num_v {
+            #[cfg(meshless_voro_verif)]
+            crate::verif::sched_point(crate::verif::SITE_CLIP_VERTEX_LOOP);
             let mut clip = p.clip(self.vertices[i].loc);
             if clip == 0. {
                 // Do the equivalent in-sphere test to determine whether a vertex is clipped
@@ -395,6 +397,8 @@ impl ConvexCell<WithoutFaces> {
 
         // Were any vertices clipped?
         if num_r > 0 {
+            #[cfg(meshless_voro_verif)]
+            crate::verif::sched_point(crate::verif::SITE_CLIP_REMOVED);
             // Add the new clipping plane
             let p_idx = self.clipping_planes.len();
             self.clipping_planes.push(p);
@@ -408,6 +412,8 @@ impl ConvexCell<WithoutFaces> {
             // Add new vertices constructed from the new clipping plane and the boundary
             let mut cur = boundary.next().expect("Boundary contains at least 3 elements");
             for next in boundary {
+                #[cfg(meshless_voro_verif)]
+                crate::verif::sched_point(crate::verif::SITE_CLIP_NEW_VERTEX);
                 self.vertices.push(Vertex::from_dual(
                     cur,
                     next,
